@@ -60,6 +60,16 @@ class Section:
 CLAUSE_RE = re.compile(r"^(requires|ensures|invariant|invariant_except_break|loop_ensures|decreases|recommends|opens_invariants|no_unwind|returns_clause)(@(\d+))?(\[([^\]]*)\])?\s*(.*)$")
 
 
+SHORT = [(re.compile(r"\bnew\(([A-Za-z_][A-Za-z0-9_.]*)\)"), r"(*final(\1))"), (re.compile(r"\bpre\(([A-Za-z_][A-Za-z0-9_.]*)\)"), r"(*old(\1))")]
+
+
+def expand_short(text):
+    """clause shorthand: new(x) = (*final(x)), pre(x) = (*old(x))"""
+    for pat, rep in SHORT:
+        text = pat.sub(rep, text)
+    return text
+
+
 def parse_spec(path):
     """returns list of top-level Sections (modules)"""
     mods = []
@@ -154,7 +164,7 @@ def parse_spec(path):
         if s.startswith("|"):
             if last_clause is None:
                 raise ExtractError("%s:%d continuation without clause" % (path, ln))
-            last_clause["text"] += "\n" + s[1:].rstrip()
+            last_clause["text"] += "\n" + expand_short(s[1:].rstrip())
             continue
         if cur_fn is None:
             raise ExtractError("%s:%d clause outside @fn: %s" % (path, ln, s))
@@ -164,7 +174,7 @@ def parse_spec(path):
                 raise ExtractError("%s:%d bad hint" % (path, ln))
             where = m.group(1).split()[0].split("@")[0]
             arg = m.group(2) or m.group(3) or m.group(4) or m.group(5)
-            h = {"where": where, "arg": arg, "text": m.group(6), "line": ln}
+            h = {"where": where, "arg": arg, "text": expand_short(m.group(6)), "line": ln}
             cur_fn.hints.append(h)
             last_clause = h
             continue
@@ -187,7 +197,7 @@ def parse_spec(path):
             tags = [x.strip() for x in t.split(",") if x.strip()]
             label = label.strip() or None
         c = {"kind": m.group(1), "loop": int(m.group(3)) if m.group(3) else None,
-             "tags": tags, "label": label, "text": m.group(6), "line": ln}
+             "tags": tags, "label": label, "text": expand_short(m.group(6)), "line": ln}
         cur_fn.clauses.append(c)
         last_clause = c
     return mods
